@@ -515,6 +515,22 @@ def _err_class(msg):
   return re.sub(r"[0-9]+", "N", msg or "")[:60]
 
 
+def _carrier(d, off):
+  """which network layer carries the transport header at off: ipv4, ipv6, ipv6+ext"""
+  cur = "none"
+  for l in d.layers:
+    if l["off"] > off:
+      break
+    p = l["p"]
+    if p in ("ipv4", "ipv6"):
+      cur = p
+    elif p.startswith("ipv6."):
+      cur = "ipv6+ext"
+    elif p in ("gre", "vxlan"):
+      cur = "none"
+  return cur
+
+
 def judge(spec, out):
   """assemble, pack, parse, compare, dissect.  Appends violations to out; returns labels info."""
   L = setup()
@@ -554,8 +570,11 @@ def judge(spec, out):
              % (shape, ("stops with '%s'" % d.error) if d.error else "finds other layers", got, exp, b.hex()[:600]), after=after)
     return b          # the bytes are structurally wrong: a round trip of them proves nothing
   for c in d.bad_checks():
+    extra = {}
+    if c["name"] in ("udp.csum", "tcp.csum"):
+      extra["over"] = _carrier(d, c["off"])
     out.fail("wire", "%s at offset %d of the emitted %s frame is %r, the reference says %r\n%s"
-             % (c["name"], c["off"], shape, c["got"], c["want"], b.hex()[:600]), check=c["name"])
+             % (c["name"], c["off"], shape, c["got"], c["want"], b.hex()[:600]), check=c["name"], **extra)
   if spec[-1]["t"] == "raw":
     want = P.payload_bytes(spec[-1])
     gotp = b[d.payload[0]:d.payload[1]] if d.payload else b""
